@@ -51,7 +51,7 @@ def run(ctx):
                                             mem_kb=3 * 1024 * 1024)
     for case, how, out in crashes:
         case.pop("alloc", None); case.pop("calls", None); case.pop("ok", None)
-        vlib.report_failure(ctx, case, {"failed": ["process-died:" + how], "output": out[-600:]}, case=case)
+        vlib.report_failure(ctx, case, {"failed": ["process-died:" + how], "output": out[:700]}, case=case)
     # re-run the remaining cases of crashed batches one by one is unnecessary: each crash identifies its input;
     # the rest of that batch is simply not covered in this run (reported)
     ctx.cov["crashed_batches"] = len(crashes)
